@@ -1086,6 +1086,24 @@ class Models:
     def x_networkx(self):
         return NxModule(self)
 
+    def _c10_uf(self, name, rk):
+        def f(ex_, a, k):
+            from . import loops
+            names = loops.as_seq(ex_, a[1])
+            if not isinstance(names, Sym):
+                names = P.seq_of(ex_, [P.str_t(ex_, x) for x in names], K.Seq(K.Str)) if False else None
+            if names is None or not isinstance(names.kind, K.Seq):
+                raise OutOfSubset(f'{name}: a symbolic name sequence expected')
+            item = P.str_t(ex_, a[0])
+            return Sym(rk, P.ufn(name, [z3.StringSort(), names.t.sort()], rk.sort())(item, names.t))
+        return Builtin(f'prims.{name}', f)
+
+    def x_pyvc_prims_c10_resolves(self):
+        return self._c10_uf('c10_resolves', K.Bool)
+
+    def x_pyvc_prims_c10_target(self):
+        return self._c10_uf('c10_target', K.Str)
+
     def x_pyvc_prims_same_map(self):
         def f(ex_, a, k):
             from . import loops
